@@ -187,7 +187,8 @@ fn parse_v_text_directive(jsx_attr: &JSXAttr) -> Directive {
                 (**expr).clone()
             }
         }
-        None => {
+        // no value, or a value that is neither a string nor an expression (element, fragment, `{}`)
+        _ => {
             HANDLER.with(|handler| {
                 handler.span_err(
                     jsx_attr.span,
@@ -199,7 +200,6 @@ fn parse_v_text_directive(jsx_attr: &JSXAttr) -> Directive {
                 value: true,
             }))
         }
-        _ => unreachable!(),
     };
 
     Directive::Text(expr)
@@ -220,7 +220,8 @@ fn parse_v_html_directive(jsx_attr: &JSXAttr) -> Directive {
                 (**expr).clone()
             }
         }
-        None => {
+        // no value, or a value that is neither a string nor an expression (element, fragment, `{}`)
+        _ => {
             HANDLER.with(|handler| {
                 handler.span_err(
                     jsx_attr.span,
@@ -232,7 +233,6 @@ fn parse_v_html_directive(jsx_attr: &JSXAttr) -> Directive {
                 value: true,
             }))
         }
-        _ => unreachable!(),
     };
 
     Directive::Html(expr)
